@@ -143,11 +143,144 @@ def c04(res, wd):
                 "disabled) for windows 0..12; non-trivial = >=5 stalled calls")
 
 
+# ---------------------------------------------------------------------------------------------
+# C05: transient faults never wedge a session
+# ---------------------------------------------------------------------------------------------
+
+LINK_INV = ["StreamIntact", "NoEndpointError", "HistoryBounded"]
+
+
+def _link_models(res, wd, tier):
+    base = {"MaxFrame": 6, "Cap": 2, "FaultBudget": 3}
+    runs = [("w1_spec", dict(base, W=1, SpectatorStyle="TRUE")),
+            ("w0_spec", dict(base, W=0, SpectatorStyle="TRUE")),
+            ("w0_player", dict(base, W=0, SpectatorStyle="FALSE", MaxFrame=4))]
+    if tier == "thorough":
+        runs += [("w0_player6", dict(base, W=0, SpectatorStyle="FALSE")),
+                 ("w2_spec", dict(base, W=2, SpectatorStyle="TRUE", MaxFrame=7, FaultBudget=4)),
+                 ("w1_player", dict(base, W=1, SpectatorStyle="FALSE")),
+                 ("w2_player", dict(base, W=2, SpectatorStyle="FALSE"))]
+    bad = []
+    for name, c in runs:
+        held, out = engines.mc_generic(res, wd, "link_" + name, "MC_Link.tla", c, invariants=LINK_INV,
+                                       props=["NoWedge"], workers=10)
+        if not held:
+            bad.append(name)
+    # regression / non-vacuity: the pinned behaviour (no ack for an undecodable packet) must wedge
+    engines.mc_generic(res, wd, "link_pinned_w1_spec", "MC_Link.tla",
+                       dict(base, W=1, SpectatorStyle="TRUE"), invariants=LINK_INV, props=["NoWedge"],
+                       overrides={"AckUndecodable": "PinnedBehaviour"}, expect_violation=True, workers=6)
+    return bad
+
+
+def _transient_cfg(rng, kind):
+    """2 players (or host + spectator) on default timeouts; every fault is transient."""
+    w = rng.choice([0, 1, 1, 2, 8])
+    if kind == "spec":
+        peers = [{"kind": "p2p", "locals": [0], "delay": rng.choice([0, 2]), "host": 0},
+                 {"kind": "spec", "locals": [], "delay": 0, "host": 0}]
+        players = 1
+    elif kind == "p2spec":
+        peers = [{"kind": "p2p", "locals": [0], "delay": rng.choice([0, 1]), "host": 0},
+                 {"kind": "p2p", "locals": [1], "delay": rng.choice([0, 2]), "host": 0},
+                 {"kind": "spec", "locals": [], "delay": 0, "host": rng.choice([0, 1])}]
+        players = 2
+    elif kind == "p3":
+        peers = [{"kind": "p2p", "locals": [i], "delay": rng.choice([0, 1]), "host": 0} for i in range(3)]
+        players = 3
+    else:
+        peers = [{"kind": "p2p", "locals": [0], "delay": rng.choice([0, 1, 3]), "host": 0},
+                 {"kind": "p2p", "locals": [1], "delay": rng.choice([0, 2]), "host": 0}]
+        players = 2
+    return {"players": players, "window": w, "sparse": rng.random() < 0.3, "predictor": "repeat",
+            "desync": 0, "fps": 60, "timeout": 2000, "notify": 500, "max_behind": 10, "catchup": 2,
+            "max_delay": 8, "transient": True, "peers": peers}
+
+
+def _fault_plan_runs(res, wd, tier):
+    """Every set of <= K faults on the first M packets of each link/phase (TLC-enumerated)."""
+    m, k = sizes(tier, (6, 1), (8, 2))
+    rng = random.Random(res.seed * 1000 + 50)
+    all_plans = []
+    for kind in ("p2", "spec"):
+        fps = engines.fault_plans(wd, 2, m, k, [150])
+        if tier == "quick" and len(fps) > 80:
+            fps = [fps[0]] + rng.sample(fps[1:], 79)
+        for fp in fps:
+            cfg = _transient_cfg(random.Random(hash((kind, len(all_plans))) & 0xffff), kind)
+            all_plans.append({"seed": len(all_plans) + res.seed, "cfg": cfg, "frames": 10 ** 9,
+                              "tick_ms": [16, 16], "lat_lo": 8, "lat_hi": 8, "loss": 0.0,
+                              "alphabet": 4, "change": 0.5, "links": [[0, 1], [1, 0]],
+                              "fault_plan": fp, "fault_until": 2500, "after_ms": 1500, "min_progress": 20,
+                              "max_ms": 20000, "_kind": kind})
+    res.extra["fault_plans"] = {"M": m, "K": k, "plans": len(all_plans), "exhaustive": tier == "thorough"}
+    engines.obs_runs(res, "C05", all_plans, {"C05"}, wd, "fp", batch=8, nontrivial_stat="runsWithPlannedFault",
+                     cls_of=lambda p: "faultplan-" + p["_kind"])
+
+
+def _bursts(rng, kind):
+    """Random burst outages (one or both directions, 50-1500 ms) shorter than the timeout."""
+    cfg = _transient_cfg(rng, kind)
+    n = len(cfg["peers"])
+    outs = []
+    t = 1200
+    while t < 9000:
+        a = rng.randrange(n)
+        b = rng.choice([x for x in range(n) if x != a])
+        ln = rng.choice([50, 150, 400, 400, 800, 1200, 1500])
+        outs.append({"from": a, "to": b, "start": t, "len": ln})
+        if rng.random() < 0.4:
+            outs.append({"from": b, "to": a, "start": t, "len": ln})
+        t += ln + rng.choice([700, 1200, 2000])
+    return {"seed": rng.randrange(1 << 30), "cfg": cfg, "frames": 10 ** 9, "tick_ms": [16] * n,
+            "jitter": rng.choice([0, 2]), "lat_lo": 5, "lat_hi": rng.choice([5, 30]),
+            "loss": rng.choice([0.0, 0.05, 0.2]), "dup": rng.choice([0.0, 0.05]),
+            "alphabet": 4, "change": 0.4, "outages": outs, "fault_until": 10500, "after_ms": 2000,
+            "min_progress": 30, "max_ms": 30000, "_kind": kind}
+
+
+def c05(res, wd):
+    bad = _link_models(res, wd, res.tier)
+    # the regression schedule of the repaired wedge: 400 ms ack-path outage towards a spectator
+    reg = {"seed": 5, "frames": 10 ** 9,
+           "cfg": {"players": 1, "window": 8, "transient": True, "timeout": 2000, "notify": 500,
+                   "peers": [{"kind": "p2p", "locals": [0], "delay": 0, "host": 0},
+                             {"kind": "spec", "locals": [], "delay": 0, "host": 0}]},
+           "tick_ms": [16, 16], "lat_lo": 10, "lat_hi": 10, "loss": 0.0, "alphabet": 4, "change": 0.3,
+           "outages": [{"from": 1, "to": 0, "start": 1500, "len": 400}], "fault_until": 2200,
+           "after_ms": 3000, "min_progress": 30, "max_ms": 30000, "_kind": "spec"}
+    engines.obs_runs(res, "C05", [reg], {"C05"}, wd, "regress", cls_of=lambda p: "spectator-ack-outage")
+    if bad:
+        # a liveness counterexample of the link model: the class it describes is exercised on the real
+        # code by the burst family below; a model-only counterexample is reported as drift
+        res.extra["link_model_counterexamples"] = bad
+    _fault_plan_runs(res, wd, res.tier)
+    n = sizes(res.tier, 12, 80)
+    rng = random.Random(res.seed * 1000 + 51)
+    ps = [_bursts(rng, ["p2", "spec", "p2spec", "p3"][i % 4]) for i in range(n)]
+    engines.obs_runs(res, "C05", ps, {"C05"}, wd, "burst", cls_of=lambda p: "burst-" + p["_kind"],
+                     nontrivial=lambda st, pl: st["dropped"] >= 20)
+    res.rule = ("(1) MC_Link.tla: exhaustive safety + liveness (NoWedge under weak fairness, fault budget as a guard) of "
+                "the input stream / ack path built from Protocol.tla's operators, spectator- and player-style receiver, "
+                "windows 0..2; a regression run with the pinned pre-fix behaviour must find the wedge; "
+                "(2) every TLC-enumerated set of <=K drop/dup/delay faults on the first M packets of each link and phase "
+                "executed on real sessions (player pair, host+spectator), followed by 1.5 s of perfect network: the TLA+ "
+                "monitor demands progress of every session and no Disconnected event; (3) random burst outages "
+                "50-1500 ms in one or both directions on 2-3 peers with spectators. non-trivial = the planned fault hit "
+                "a packet / >=20 packets lost")
+    res.assumptions += ["outages stay below timeout - keepalive interval (<= 1500 ms against 2000 ms)",
+                        "link model: timers abstracted to a fair Retransmit action; <= 2 packets in flight per direction"]
+    if bad and not res.violations:
+        raise core.ToolError("MC_Link liveness counterexample (%s) not reproduced on the implementation: "
+                             "model deviates from the code" % bad)
+
+
 CHECKS = {
     "C01": c01,
     "C02": c02,
     "C03": c03,
     "C04": c04,
+    "C05": c05,
 }
 
 
